@@ -9,7 +9,8 @@
 (*           exactly when v is in 1 .. 2^31-2                              *)
 (*   rand  : new state = PMNext(previous observed state); result in        *)
 (*           0 .. maxv-1; result = floor(s'*maxv/(2^31-1)) when            *)
-(*           s'*maxv < 2^53, otherwise within 1 of it; the 10 000-th state *)
+(*           s'*maxv < 2^53; result = the binary64 value of the RFC's      *)
+(*           expression, truncated, always (RefScale); the 10 000-th state *)
 (*           after an accepted srand(1) is 1 043 618 065                   *)
 (*   walk  : n calls later the state is 16807^n * s mod (2^31-1); after    *)
 (*           seed 1 the state is 1 exactly when the number of calls is a   *)
@@ -64,17 +65,62 @@ Srand(ev) ==
         /\ sd' = IF accept /\ ev.a = v THEN ToInt(v) ELSE 0
 
 (* ----------------------------------------------------------------- rand *)
+(***************************************************************************)
+(* RFC 5170's reference expression                                         *)
+(*     (double)s' * (double)maxv / (double)(2^31-1)   truncated            *)
+(* in IEEE-754 binary64, round to nearest even, as two correctly rounded   *)
+(* operations: A = RN53(s'*maxv) (an integer; exact below 2^53), then      *)
+(* RN53(A / (2^31-1)) (2^31-1 is a double), then truncation toward zero.   *)
+(* DivA: floor and remainder of A by 2^31-1, from those of the exact       *)
+(* product (MulDivP) and the small difference A - product.                 *)
+(* RefScale: the 53 leading significant bits of f + rem/(2^31-1) are       *)
+(* produced one by one (doubling the remainder modulo 2^31-1 yields the    *)
+(* next fraction bit as the carry; they are appended to the significand    *)
+(* 15 at a time), the next bit and "anything left" decide the rounding,    *)
+(* and the F fraction bits are shifted out again.                          *)
+(***************************************************************************)
+DivA(prod, A, md) ==                \* md = [q, r] with prod = q*(2^31-1) + r
+    IF NLeq(prod, A)
+    THEN LET du == ToInt(NSub(A, prod))                     \* A = prod + du, du <= 2^6
+         IN  IF md.r >= P31 - du THEN [q |-> md.q + 1, r |-> md.r - (P31 - du)] ELSE [q |-> md.q, r |-> md.r + du]
+    ELSE LET dd == ToInt(NSub(prod, A))                     \* A = prod - dd
+         IN  IF md.r >= dd THEN [q |-> md.q, r |-> md.r - dd] ELSE [q |-> md.q - 1, r |-> md.r + (P31 - dd)]
+
+Idx84 == [i \in 1 .. 84 |-> i]      \* at most 31 leading zero bits + 53 significant bits
+
+RefScale(prod, md) ==               \* Nat64 value of the truncated reference expression; prod = s' * maxv < 2^60
+    LET A  == NRound53(prod)
+        dv == DivA(prod, A, md)
+        step(acc, i) ==
+            IF acc.nb >= 53 THEN acc
+            ELSE LET d   == AddModP(acc.r, acc.r)           \* d.c = next fraction bit
+                     cur == 2 * acc.cur + d.c
+                     nb  == IF acc.nb = 0 /\ d.c = 0 THEN 0 ELSE acc.nb + 1
+                 IN  IF acc.k = 14
+                     THEN [M |-> NAdd(NShl(acc.M), FromInt(cur)), cur |-> 0, k |-> 0, nb |-> nb, F |-> acc.F + 1, r |-> d.v]
+                     ELSE [M |-> acc.M, cur |-> cur, k |-> acc.k + 1, nb |-> nb, F |-> acc.F + 1, r |-> d.v]
+        m  == FoldLeft(step, [M |-> FromInt(dv.q), cur |-> 0, k |-> 0, nb |-> BitLenI(dv.q), F |-> 0, r |-> dv.r],
+                       SubSeq(Idx84, 1, IF dv.q = 0 THEN 84 ELSE 53 - BitLenI(dv.q)))
+        M1 == NAdd(NMulD(m.M, 2 ^ m.k), FromInt(m.cur))     \* significand: f followed by the F fraction bits
+        rb == AddModP(m.r, m.r)                             \* first discarded bit = rb.c, rest non-zero iff rb.v # 0
+        up == rb.c = 1 /\ (rb.v # 0 \/ NBit(M1, 0) = 1)
+        M2 == IF up THEN NAdd(M1, NOne) ELSE M1             \* may become 2^53: still the right value
+    IN  [v  |-> NShr(M2, m.F),
+         ok |-> NBitLen(prod) <= 60 /\ NBitLen(A) <= 60 /\ (m.nb = 53 \/ m.r = 0)
+                /\ NAdd(NMul(FromInt(dv.q), FromInt(P31)), FromInt(dv.r)) = A /\ dv.r < P31 /\ dv.r >= 0]
+
 ScaleCheck(s2, mv, r) ==
     LET md   == MulDivP(s2, mv)
         prod == NMul(FromInt(s2), FromInt(mv))
         wide == NLeq(NPow53, prod)                    \* s' * maxv >= 2^53
         rv   == ToInt(r)
+        ref  == RefScale(prod, md)
     IN  /\ IF NAdd(NMul(FromInt(md.q), FromInt(P31)), FromInt(md.r)) = prod /\ md.r < P31 THEN TRUE
            ELSE Infra("spec-muldiv-selfcheck")
+        /\ IF ref.ok THEN TRUE ELSE Infra("spec-refscale-selfcheck")
         /\ IF Fits31(r) /\ rv < mv THEN TRUE ELSE Msg("result-out-of-range", "")
-        /\ IF wide THEN (IF Fits31(r) /\ rv >= md.q - 1 /\ rv <= md.q + 1 THEN TRUE
-                         ELSE Msg("result-off-by-2+", "prod>=2^53"))
-           ELSE (IF Fits31(r) /\ rv = md.q THEN TRUE ELSE Msg("result-not-floor", "prod<2^53"))
+        /\ IF wide \/ (Fits31(r) /\ rv = md.q) THEN TRUE ELSE Msg("result-not-floor", "prod<2^53")
+        /\ IF r = ref.v THEN TRUE ELSE Msg("result-not-rfc-double", IF wide THEN "prod>=2^53" ELSE "prod<2^53")
 
 Rand(ev) ==
     LET pre == known /\ ValidN(st)
